@@ -106,3 +106,58 @@ def verifier_db(user=b"test", password=b"password", bits=1536):
     N, g, salt, verifier = _srp[k]
     db[user] = (N, g, salt, verifier)
     return db
+
+
+DC_KEYS = {
+    "rsa_pss_pss_sha256": ("serverDelCredRSAPSSKey.pem",
+                           "serverDelCredRSAPSSPub.pem"),
+    "ed25519": ("serverDelCredEd25519Key.pem", "serverDelCredEd25519Pub.pem"),
+    "ecdsa_secp256r1_sha256": ("serverDelCredSECP256r1Key.pem",
+                               "serverDelCredSECP256r1Pub.pem"),
+    "ecdsa_secp384r1_sha384": ("serverDelCredSECP384r1Key.pem",
+                               "serverDelCredSECP384r1Pub.pem"),
+}
+# signature scheme the delegating certificate key signs the credential with
+DC_CERT_SCHEME = {"rsa": "rsa_pss_rsae_sha256", "rsa_nonca":
+                  "rsa_pss_rsae_sha256",
+                  "ecdsa": "ecdsa_secp256r1_sha256",
+                  "ecdsa_nonca": "ecdsa_secp256r1_sha256",
+                  "ed25519": "ed25519"}
+
+
+def delegated(cert_name, dc_alg, signer_name=None):
+    """(dc private key, DelegatedCredential) for server certificate
+    `cert_name`; the delegation is signed by `signer_name`'s key (default:
+    the certificate's own key - the honest case), as tests/tlstest.py does."""
+    import hashlib
+    from tlslite.api import parsePEMKey
+    from tlslite.utils.pem import dePem
+    from tlslite.constants import SignatureScheme, SignatureAlgorithm, \
+        HashAlgorithm
+    from tlslite.x509 import DelegatedCredential, Credential
+    from tlslite.handshakesettings import DC_VALID_TIME
+    kf, pf = DC_KEYS[dc_alg]
+    dc_key = parsePEMKey(_read(kf), private=True, implementations=["python"])
+    dc_pub = dePem(_read(pf), "PUBLIC KEY")
+    dc_scheme = getattr(SignatureScheme, dc_alg)
+    chain, _ = load("server", cert_name)
+    _, skey = load("server", signer_name or cert_name)
+    sname = DC_CERT_SCHEME[signer_name or cert_name]
+    sig_alg = getattr(SignatureScheme, sname)
+    cred_bytes = Credential.marshal(DC_VALID_TIME, dc_scheme, dc_pub)
+    cred = Credential(valid_time=DC_VALID_TIME,
+                      dc_cert_verify_algorithm=dc_scheme,
+                      subject_public_key_info=dc_pub, bytes=cred_bytes)
+    tbs = DelegatedCredential.compute_certificate_dc_sig_context(
+        chain.x509List[0].bytes, cred_bytes, sig_alg)
+    if sig_alg in (SignatureScheme.ed25519, SignatureScheme.ed448):
+        args = (None, "intrinsic", None)
+    elif sig_alg[1] == SignatureAlgorithm.ecdsa:
+        args = (None, HashAlgorithm.toRepr(sig_alg[0]), None)
+    else:
+        hn = SignatureScheme.getHash(sname)
+        args = (SignatureScheme.getPadding(sname), hn,
+                getattr(hashlib, hn)().digest_size)
+    signature = skey.hashAndSign(tbs, *args)
+    return dc_key, DelegatedCredential(cred=cred, algorithm=sig_alg,
+                                       signature=signature)
